@@ -59,6 +59,11 @@ Theorem C11_knot_eq_zoh ro d t w es fp j : (1 <= w)%nat -> (w <= length es)%nat 
   t == nth (start d t w es + (w - 1)) (map (mask ro d) es) 0 ->
   nth j (apply_linear ro d t w es fp) 0 == nth j (zoh d t w es fp) 0.
 Proof. exact (fun H1 H2 H3 => apply_knot_eq_zoh ro d t w es fp H1 H2 H3 j). Qed.
+(* the hypothesis above is what "the delayed arrival coincides with a message" gives: if the step starts exactly when
+   entry k arrives (strictly increasing arrivals, window <= k + 1), entry k is the newest sliced entry *)
+Theorem C11_coincidence_selects_that_message d t w es k : sincr (map (recv_d d) es) -> (k < length es)%nat ->
+  nth k (map (recv_d d) es) 0 == t -> (1 <= w)%nat -> (w <= S k)%nat -> (start d t w es + (w - 1))%nat = k.
+Proof. exact (coincidence_slice d t w es k). Qed.
 Theorem C11_value_at_knot x xk yk pre post : incr (pre ++ (xk, yk) :: post) -> pre ++ post <> [] -> x == xk ->
   interp x (pre ++ (xk, yk) :: post) == yk.
 Proof. exact (interp_at_knot x xk yk pre post). Qed.
@@ -150,3 +155,10 @@ Example C11_instance_few_arrived :
   map Qred (apply_linear false (3 # 8) (3 # 4) 3 ex_es ex_fp) = [10; 10; 25 # 2] /\
   Qred (interp ((3 # 4) - (3 # 8)) (signal ex_es ex_fp)) = 25 # 2.
 Proof. vm_compute. repeat split; reflexivity. Qed.
+(* coincidence instance: the step starts exactly when message 2 arrives (5/4 + 3/8): the interpolated window is the
+   zero-order-hold window [message 1; message 2] *)
+Example C11_instance_coincidence :
+  sincr (map (recv_d (3 # 8)) ex_es) /\ incr (knots false (3 # 8) ex_es ex_fp) /\
+  nth 2 (map (recv_d (3 # 8)) ex_es) 0 == 13 # 8 /\ (start (3 # 8) (13 # 8) 2 ex_es + (2 - 1))%nat = 2%nat /\
+  map Qred (apply_linear false (3 # 8) (13 # 8) 2 ex_es ex_fp) = [20; 16] /\ zoh (3 # 8) (13 # 8) 2 ex_es ex_fp = [20; 16].
+Proof. split; [simpl; repeat split; reflexivity|]. split; [simpl; repeat split; reflexivity|]. vm_compute. repeat split; reflexivity. Qed.
